@@ -69,7 +69,7 @@ static std::string mk_setting(Rng &g, int mi) {
         static const unsigned flv[] = {0x0b6 /* RW defaults */, 0x0b6, 0x002 /* RW, minimal */, 0x001 /* WORM */, 0x0b6 | 0x004, 0x002 | 0x018};
         char buf[256]; std::string salt = rnd_bytes(g, g.chance(1, 4) ? 64 : g.chance(1, 2) ? (size_t)g.range(0, 64) : (size_t)g.range(0, 32));
         unsigned r = g.chance(1, 2) ? 8 : (unsigned)g.range(1, 4), p = (unsigned)g.range(1, 3), t = (unsigned)g.below(3);
-        unsigned long long N = 1ull << g.range(p > 1 ? 6 : 2, 9);
+        unsigned long long N = 1ull << g.range(p > 1 ? 6 : 2, g.chance(1, 10) ? 13 : 9);
         if (gen_yescrypt_setting(flv[g.below(6)], N, r, p, t, (const unsigned char *)salt.data(), salt.size(), buf, sizeof buf)) {
           std::string s = buf; if (mi == 1) s = "$gy$" + s.substr(3);
           if (g.chance(1, 4)) s += "$";
@@ -87,18 +87,18 @@ static std::string mk_setting(Rng &g, int mi) {
       if (g.chance(1, 2)) s += "$";
       return s;
     }
-    case 3: case 4: case 5: case 6: return ref_gensalt(PREFIX[mi], 4 + (g.chance(1, 8) ? 1 : 0), rnd_bytes(g, 16));
+    case 3: case 4: case 5: case 6: return ref_gensalt(PREFIX[mi], g.chance(1, 12) ? 6 + g.below(2) : 4 + (g.chance(1, 8) ? 1 : 0), rnd_bytes(g, 16));
     case 7: case 8: {
       std::string s = PREFIX[mi];
-      if (g.chance(1, 2)) s += "rounds=" + std::to_string(g.chance(1, 6) ? g.range(1, 999) : g.range(1000, 1600)) + "$";
+      if (g.chance(1, 2)) s += "rounds=" + std::to_string(g.chance(1, 6) ? g.range(1, 999) : g.chance(1, 8) ? g.range(1601, 12000) : g.range(1000, 1600)) + "$";
       s += b64salt(g, g.chance(1, 8) ? g.range(17, 24) : g.range(0, 16));
       if (g.chance(1, 2)) s += "$";
       return s;
     }
-    case 9: return "$sha1$" + std::to_string(g.range(1, 80)) + "$" + b64salt(g, (size_t)g.range(1, 64)) + (g.chance(3, 4) ? "$" : "");
+    case 9: return "$sha1$" + std::to_string(g.chance(1, 8) ? g.range(81, 6000) : g.range(1, 80)) + "$" + b64salt(g, (size_t)g.range(1, 64)) + (g.chance(3, 4) ? "$" : "");
     case 10: {
       std::string s = "$md5";
-      if (g.chance(1, 2)) s += ",rounds=" + std::to_string(g.range(1, 300));
+      if (g.chance(1, 2)) s += ",rounds=" + std::to_string(g.chance(1, 10) ? g.range(301, 9000) : g.range(1, 300));
       s += "$" + b64salt(g, (size_t)g.range(1, 16)) + "$";
       if (g.chance(1, 4)) s += "$";
       return s;
@@ -107,7 +107,7 @@ static std::string mk_setting(Rng &g, int mi) {
     case 12: return g.chance(1, 2) ? "$3$" : (g.chance(1, 2) ? "$3$$" : "$3$$8846f7eaee8fb117ad06bdd830b7586c");
     case 13: {
       if (g.chance(1, 2)) return ref_gensalt("_", 1 + 2 * g.below(40), rnd_bytes(g, 3));
-      unsigned v = 1 + (unsigned)g.below(200);
+      unsigned v = 1 + (unsigned)(g.chance(1, 8) ? g.below(30000) : g.below(200));   // (count 4096 and up is where a tree might switch tables)
       std::string s = "_"; for (int i = 0; i < 4; i++) { s += B64[v & 63]; v >>= 6; }
       return s + b64salt(g, 4);
     }
@@ -160,10 +160,10 @@ static bool cheap_enough(const std::string &s, const std::string &orig) {
     while (p < s.size() && s[p] >= '0' && s[p] <= '9' && n < 12) { v = v * 10 + (unsigned long)(s[p] - '0'); p++; n++; }
     return v <= limit && n < 12;
   };
-  if (!num_after("rounds=", 20000)) return false;
+  if (!num_after("rounds=", 20000)) return false;   // (sha*crypt and sunmd5)
   if (!s.compare(0, 6, "$sha1$") && !num_after("$sha1$", 3000)) return false;
   if (s.size() >= 6 && s[0] == '$' && s[1] == '2') { if (!(s[4] == '0' && s[5] >= '0' && s[5] <= '6')) return s[4] < '0' || s[4] > '9' || s[5] < '0' || s[5] > '9'; }
-  if (!s.empty() && s[0] == '_') { unsigned long c = 0; for (int i = 0; i < 4 && (size_t)(1 + i) < s.size(); i++) { const char *q = strchr(B64, s[(size_t)(1 + i)]); if (!q) return true; c |= (unsigned long)(q - B64) << (6 * i); } if (c > 5000) return false; }
+  if (!s.empty() && s[0] == '_') { unsigned long c = 0; for (int i = 0; i < 4 && (size_t)(1 + i) < s.size(); i++) { const char *q = strchr(B64, s[(size_t)(1 + i)]); if (!q) return true; c |= (unsigned long)(q - B64) << (6 * i); } if (c > 40000) return false; }
   // yescrypt family: the parameter field (up to the '$' that ends it) must be untouched
   for (const char *pf : {"$y$", "$gy$", "$7$"}) {
     size_t l = strlen(pf);
@@ -369,7 +369,7 @@ static J gensalt_op(Rng &g, bool allow_static, bool allow_auto, bool cheap_only)
   else {
     // never fewer than 4 bytes for the $1$/$5$/$6$ writers and never an output_size in 3..191:
     // those regions hit defects F2/F3 that belong to properties this check does not decide (DESIGN 3.5, 6)
-    size_t n = g.chance(1, 6) ? (size_t)g.range(4, 12) : g.chance(1, 5) ? (size_t)g.range(41, 255) : g.chance(1, 8) ? 64 : (size_t)g.range(16, 40);
+    size_t n = g.chance(1, 6) ? (size_t)g.range(4, 12) : g.chance(1, 5) ? (size_t)g.range(41, 255) : g.chance(1, 8) ? 64 : g.chance(1, 12) ? (size_t)g.range(256, 1200) : (size_t)g.range(16, 40);
     op["rb"] = Bytes(rnd_bytes(g, n)).to_json();
   }
   (void)cheap_only;
@@ -381,6 +381,7 @@ static J base_plan(const std::string &prop, const char *variant, uint64_t seed, 
   J p = J::obj();
   p["property"] = prop; p["variant"] = variant; p["seed"] = (long long)seed; p["tier"] = tier;
   J env = J::obj(); env["fill_seed"] = (long long)(1 + g.below(1u << 30)); env["realloc_move"] = g.chance(2, 3); env["entropy_seed"] = (long long)(seed * 2654435761u + 17);
+  { Rng le(seed, "locale"); if (le.chance(1, 8)) env["locale"] = le.chance(1, 2) ? "xx_XX.ISO-8859-1" : "C.UTF-8"; }
   p["env"] = env;
   p["tasks"] = J::arr();
   return p;
@@ -417,7 +418,7 @@ static J plan_c07(uint64_t seed, const std::string &tier, bool secrets, const st
       issued.push_back(r);
       op["k"] = hash_kind(g, true); place(g, op, nobj, nslots); put_req(op, r);
       pre_scribble(g, op, 15, 25, 10);
-      if (g.chance(1, 3)) { static const long e0[] = {22, 34, 12, 4, 1234, 2, 11}; op["errno0"] = e0[g.below(7)]; }   // errno is arbitrary at entry
+      if (g.chance(1, 3)) { static const long e0[] = {22, 34, 12, 4, 1234, 2, 11}; op["errno0"] = g.chance(1, 2) ? e0[g.below(7)] : g.range(1, 133); }   // errno is arbitrary at entry
       if (g.chance(1, 8)) op["guard"] = 1;        // arguments end exactly at a page boundary, next page inaccessible
       else if (g.chance(1, 8)) { static const char *adj[] = {"ph-before", "st-before", "ph-after", "st-after"}; op["adj"] = adj[g.below(4)]; }
       if (!secrets && g.chance(1, 12)) op["newthread"] = 1;   // the call is made from a thread that exists only for it (not in erasure plans: their stack scan needs the task stack)
@@ -668,7 +669,7 @@ static J plan_c15(uint64_t seed, const std::string &tier) {
       if (g.chance(1, 2)) for (int tries = 0; tries < 30 && r.m != "yescrypt" && r.m != "gost_yescrypt" && r.m != "scrypt"; tries++) r = valid_req(g, pool, false, 3);
       op["k"] = hash_kind(g, true); place(g, op, nobj, nslots); put_req(op, r);
       if (g.chance(1, 4)) { op["pre"] = "garbage"; op["gseed"] = (long long)g.below(100000); }
-      if (g.chance(1, 3)) { static const long e0[] = {22, 34, 12, 4, 1234, 2, 11}; op["errno0"] = e0[g.below(7)]; }
+      if (g.chance(1, 3)) { static const long e0[] = {22, 34, 12, 4, 1234, 2, 11}; op["errno0"] = g.chance(1, 2) ? e0[g.below(7)] : g.range(1, 133); }
     } else if (x < 85) { op = gensalt_op(g, false, true, true); op["k"] = "gensalt_ra"; if (g.chance(1, 3)) op["errno0"] = 12; }
     else if (x < 95) { op["k"] = "slot_set"; op["slot"] = (long long)g.below((uint64_t)nslots); if (g.chance(1, 2)) { op["blk"] = -1; op["rec"] = 0; } else { long b = g.range(1, 2000); op["blk"] = b; op["rec"] = g.chance(1, 4) ? 0 : b; } }
     else op["k"] = "free_results";
@@ -860,6 +861,18 @@ static J plan_c12b(uint64_t seed, const std::string &tier) {
     if (g.chance(1, 5)) { J fr = J::obj(); fr["k"] = "free_results"; ops.push(fr); }
   }
   t["ops"] = ops; p["tasks"].push(t);
+  // one run in four: several caller threads in the same process, interleaved at the simulated system calls.  The
+  // memo flags are shared by design; whatever one thread does must not turn another thread's failed draw into a success.
+  if (!longrun && g.chance(1, 4)) {
+    int extra = (int)g.range(1, 2);
+    for (int e = 0; e < extra; e++) {
+      J t2 = J::obj(); t2["objs"] = J::arr(); t2["slots"] = 0; J ops2 = J::arr();
+      for (auto &o : ops.a) { if (o.str("k") == "free_results") continue; J c = o; if (g.chance(1, 2)) c.o.erase(std::remove_if(c.o.begin(), c.o.end(), [](const std::pair<std::string, J> &kv) { return kv.first == "script"; }), c.o.end()); ops2.push(c); }
+      t2["ops"] = ops2; p["tasks"].push(t2);
+    }
+    // crypt_gensalt (static buffer) is documented MT-Unsafe: several threads use the re-entrant entry points only
+    for (auto &tk : p["tasks"].a) for (auto &o : tk["ops"].a) if (o.str("k") == "gensalt") o["k"] = "gensalt_rn";
+  }
   return p;
 }
 
